@@ -94,7 +94,10 @@ class Gen:
             std = {6: [12, 9, 9, 9, 9], 3: [12, 9, 9, 9], 9: [16, 13, 13, 6], 10: [12, 9, 9, 9, 9],
                    5: [12, 9, 9, 2], 13: [12, 9, 9, 9], 4: [12, 10, 10], 11: [12, 8, 12],
                    7: [12, 8, 11, 11, 11], 8: [16, 12, 12, 4]}.get(fmt)
-            if std and r.random() < 0.75:
+            if std and r.random() < 0.08:
+                # more fields than the architecture has levels ("Too many paging levels")
+                sizes = std + [r.choice([2, 3, 9])] * r.randint(1, 3)
+            elif std and r.random() < 0.75:
                 sizes = std[:r.choice([len(std)] * 4 + [len(std) - 1, 2, 1])]
             else:
                 nf = r.choice([0, 1, 2, 3, 3, 4, 5])
@@ -174,13 +177,23 @@ class Gen:
                     words[tbl_p + 8 * idx] = entry(pg, True, 1)
                     mapped.append((va, pg))
                 elif level == 2 and fmt != "pfn" and moff % 0x200000 == 0 and r.random() < 0.25:
-                    words[tbl_p + 8 * idx] = entry(0, True, 2)      # a 2M block at physical 0
-                    mapped.append((va + 0x1000 * r.randint(0, 0x1ff), 0))
+                    # a 2M block; bits 20:12 of a block entry are not address bits (PAT, nT, ...)
+                    blk = 0x200000 * r.randint(0, 3)
+                    words[tbl_p + 8 * idx] = entry(blk, True, 2) | r.choice([0, 0x1000, 0x11000])
+                    mapped.append((va + 0x1000 * r.randint(0, 0x1ff), blk))
                 elif next_tbl[0] < 0x2f000:
                     sub = alloc_tbl()
                     words[tbl_p + 8 * idx] = entry(sub, False, level)
                     fill(sub, level - 1, va)
         fill(root_p, top, 0)
+        # an entry that points to a table the memory image does not have: reads of it fail
+        broken = []
+        free = [i for i in range((1 << fsz[top]) // (1 if fmt == "pfn" else 2))
+                if (root_p + 8 * i) not in words]
+        if free and top >= 2 and r.random() < 0.3:
+            bi = r.choice(free)
+            words[root_p + 8 * bi] = entry(0x2e000, False, top)
+            broken.append(bi << sum(fsz[:top]))
         root_as = r.choice([0, 1, 2, 2, tas])
         root = {0: root_p, 1: m_of(root_p), 2: (D + root_p) & M64}[root_as]
         toks = []
@@ -240,6 +253,11 @@ class Gen:
             else:
                 toks.append("T%x=%s" % (r.randint(8, 15), self.meth()))
         # queries: mapped virtual addresses, direct-map addresses, physical addresses
+        if broken and mapped:
+            # a successful walk (fills the read cache), then the same failing read twice
+            toks.append("Q:2:%x" % (mapped[0][0] + 8))
+            toks.append("Q:2:%x" % (broken[0] + 0x1000))
+            toks.append("Q:2:%x" % (broken[0] + 0x2008))
         for _ in range(nq):
           for attempt in range(4):
             k = r.random()
@@ -566,7 +584,8 @@ def report(run, exe, cases, res):
                     else "no answer within the time limit" if crash[0] == "timeout" else "crash")
             run.violation("impl", "addrxlat_op/addrxlat_fulladdr_conv aborts (%s, exit %s) on system: %s"
                           % (what, crash[0], " ".join(small)[:600]), replay, found_input=True,
-                          signature="sysop crash %s %s" % (what, crash[1][-200:]))
+                          signature="sysop crash %s %s" % (what, " ".join(
+                              l for l in crash[1].split("\n") if l.startswith("SUMMARY:"))[:200] or crash[1][-200:]))
         elif sv:
             run.violation("spec", "sys.c contradicts the conversion spec: %s; system: %s"
                           % (sv[0], " ".join(small)[:600]), replay, found_input=True,
